@@ -74,7 +74,7 @@ static void exec_c11(const plan_t *p)
             if (inited) continue;
             base_serial = sa_serial(); base_live = sa_live_count();
             conf_reset_mirror();
-            simfs_set_call_failures((int)plan_get(p, "fdopen.fail", 0), (int)plan_get(p, "fchmod.fail", 0));      /* every cycle meets the same refusals, so a repeated cycle is still comparable */
+            simfs_set_call_failures((int)plan_get(p, "fdopen.fail", 0), (int)plan_get(p, "fchmod.fail", 0)); simfs_set_dir_grows((int)plan_get(p, "dir.grows", 0));      /* every cycle meets the same refusals, so a repeated cycle is still comparable */
             spifconf_init_subsystem();
             cyc_fds = simfs_open_fds(); cyc_temps = simfs_live_temp_files(); cyc_dirs = simfs_open_dirs(); cyc_streams = simfd_open_streams(); cyc_spawnfiles = simfs_live_spawn_files();
             inited = 1; cycle++; cycle_from = conf_trace_count(); cycle_ops = 1469598103934665603ULL;
@@ -299,7 +299,7 @@ static void gen_conf_file(plan_t *p, rng_t *r, const char *name, int allow_exec,
             else if (c < 80 && rng_chance(r, 1, 8)) {
                 /* built-in calls nested hundreds deep: one line of a few kilobytes, one level of recursion per call */
                 static const int deep[] = { 20, 100, 300, 450, 600, 1000, 3000 };
-                int d = deep[rng_below(r, 7)];
+                int d = deep[rng_below(r, level == 2 ? 3 : 7)];      /* (a file that may include itself 255 times over: at most 300 deep, or one plan takes minutes) */
                 add("x ");
                 for (int z = 0; z < d; z++) add("%%get(");
                 add("k1");
@@ -380,10 +380,12 @@ static void gen_c11(plan_t *p, rng_t *r)
     int first_ops_start = 0, first_ops_end = 0;
     op_t *o;
     plan_knob(p, "alloc.fill", rng_range(r, 0, 4));
+    plan_knob(p, "alloc.zero", rng_chance(r, 1, 4)); plan_knob(p, "alloc.realloc0", rng_chance(r, 1, 4));      /* the two readings ISO C allows for a request of no bytes */
     plan_knob(p, "alloc.realloc", rng_range(r, 0, 2));
     plan_knob(p, "alloc.reuse", rng_range(r, 0, 2));
     plan_knob(p, "mkstemp.mode", rng_chance(r, 1, 2) ? 0600 : 0666);
     if (rng_chance(r, 1, 6)) plan_knob(p, "env.meta", rng_range(r, 1, 8));          /* an environment value that looks like something to expand or to run: it is inserted as it is */
+    if (rng_chance(r, 1, 3)) plan_knob(p, "dir.grows", 1);                           /* a directory that is read twice has gained a file with a long name by the second time */
     if (rng_chance(r, 1, 8)) plan_knob(p, "fdopen.fail", rng_range(r, 1, 3));       /* the k-th fdopen() of the run finds no stream to be had */
     if (rng_chance(r, 1, 8)) plan_knob(p, "fchmod.fail", rng_range(r, 1, 3));       /* the k-th fchmod() is refused */
     plan_knob(p, "tmpdir", rng_chance(r, 1, 3) ? (rng_chance(r, 1, 3) ? rng_range(r, 2, 3) : rng_chance(r, 1, 4) ? rng_range(r, 4, 5) : 1) : 0);
